@@ -89,14 +89,14 @@ Proof.
   induction fuel as [|f IH]; intros s acc; cbn [gated]; [apply good_refl|].
   set (s0 := quiesce o c nd items stopmode nworkers qcap _ s).
   assert (G0 : good (base s) (base s0)) by apply quiesce_good.
-  destruct (choose rel (parked s0)) as [p|]; [|exact G0].
-  set (s1 := note_park nd s0 (parked s0)).
+  destruct (choose rel (parked c s0)) as [p|]; [|exact G0].
+  set (s1 := note_park nd s0 (parked c s0)).
   assert (G1 : good (base s) (base s1)).
   { eapply good_trans; [exact G0|]. unfold s1, note_park. cbn [base]. split.
     - eexists. split; [reflexivity|]. cbn. rewrite orb_false_r. split; auto.
       repeat constructor.
     - eexists. split; [reflexivity|]. reflexivity. }
-  destruct (find_parked (ws s1) p 0) as [k|]; [|exact G1].
+  destruct (find_parked c (ws s1) p 0) as [k|]; [|exact G1].
   destruct (bstep s1 (TWorker k)) as [s2|] eqn:Es; [|exact G1].
   eapply good_trans; [exact G1|]. eapply good_trans; [|apply IH].
   eapply bstep_good; eauto. discriminate.
